@@ -316,7 +316,7 @@ void pp_map_sim_weilp_k2(fp2_t r, const ep_t *p, const ep_t *q, int m) {
 
 	fp2_null(r0);
 	fp2_null(r1);
-	bn_null(r);
+	bn_null(n);
 
 	RLC_TRY {
 		fp2_new(r0);
